@@ -108,6 +108,11 @@ def check_one(con, hooks, inputs, timeout_s):
     return summary, failed, problems
 
 
+# inputs explained by a listed known finding also arrive here as violations (the harness sets them aside afterwards), so the
+# search must not stop after a handful of them
+VIOLATION_CAP = 60
+
+
 class NotAuto(Exception):
     pass
 
@@ -222,9 +227,13 @@ def main():
             for p in problems:
                 if len(out["problems"]) < 10:
                     out["problems"].append(p)
-            if failed and len(out["violations"]) < 8:
+            pref = job.get("clause_prefixes")
+            if pref:
+                # a shared monitor evaluates clauses of several properties: only this check's own clauses count here
+                failed = [f for f in failed if any(f.startswith(x) for x in pref)]
+            if failed and len(out["violations"]) < VIOLATION_CAP:
                 out["violations"].append({"inputs": inputs, "outcome": summary, "failed": failed})
-            if len(out["violations"]) >= 8:
+            if len(out["violations"]) >= VIOLATION_CAP:
                 out["stopped_after_violations"] = True
                 break
             if time.time() - t0 > budget:
